@@ -27,6 +27,11 @@ CLAIMED = {
     text='Decides: nl() is, for every latitude (both signs, NaN), the 59-band NL table whose breakpoints equal the formula to the table\'s 8 decimals; airborne_position builds a position only in states where the two reports have opposite parity (both orders), only on paths that passed the guard NL(returned latitude) = NL(other latitude), the returned latitude interval is within [-90, 90], neither coordinate can be NaN, and its integer arithmetic cannot panic. Does NOT decide the 10 m accuracy, longitude in [-180, 180), nor the converse "None only when the NL bands differ".',
     note='Static rule check, clause-limited as stated. CPR fields are taken as 17-bit values (what the deku readers produce). Trusted: MIR, float interval arithmetic with outward rounding, libm::floor model.',
     ref='DESIGN.md §7 C04'),
+ 'C05': dict(level='other', engine='absint+terms',
+    technique='abstract interpretation with whole symbolic expressions for the decoded coordinates; path facts at every state returning Some; exhaustive evaluation of the extracted gate expression over the 59 values of NL; NL summarised by its N1 range',
+    text='For airborne_position_with_reference and surface_position_with_reference, any message and any finite reference: no panic; every returned latitude is in [-90, 90] and no coordinate is NaN; every returned position passed |latitude - reference| <= half the zone height of its parity (360/60, 360/59; surface 90/60, 90/59) and |longitude - reference| <= half of Z / max(NL(decoded latitude) - i, 1) for every NL in 1..59 (Z = 360 or 90), the gates being on the very expressions returned; NL is only ever applied to the decoded latitude. This decides the second sentence of the property (absent or within half a zone of the reference, latitude in range).',
+    note='Static rule check. Not decided: the 10 m exactness for references within the unambiguous range (correct rounding of floor(0.5 + ref/d - cpr) over a continuum of references). Trusted: MIR, abstract interpreter (a path fact is recorded only for comparisons whose operands cannot be NaN), floor/fabs contracts, C04 rule N1 for the range of nl().',
+    ref='DESIGN.md §7 C05'),
  'C07': dict(level='other', engine='shapes',
     technique='may/must dataflow over the MIR of every Serialize impl (derived and hand-written) composing JSON shapes per enum-variant combination; serde private-serializer acceptance tables; field provenance of keys; bit positions of source fields from the abstract interpreter',
     text='Decides for every reachable combination of enum variants (not for sampled frames): the value is serialisable (nothing reached through #[serde(flatten)] or an internally tagged newtype variant uses an entry point FlatMapSerializer / TaggedSerializer rejects), the root is one object, no key is emitted twice, the df tag of DF 0,4,5,11,16,17,18,20,21 is the variant\'s deku id, icao24 exists and is fed by the address/parity field resp. the announced address read at bit 8, both written with one lower-hex template; TimedMessage always writes frame through hex::encode; no pretty writer is used.',
